@@ -81,8 +81,15 @@ pub fn generate(rng: &mut Rng, subjects: &[Subject]) -> StreamPlan {
                 _ => 3,
             };
             for _ in 0..n {
-                let off = rng.next_u32();
-                damage.push(match rng.below(16) {
+                // half of the time near the head, where tags, lengths and counts live
+                let off = if rng.coin() { rng.below(12) as u32 } else { rng.next_u32() };
+                damage.push(match rng.below(18) {
+                    16 | 17 => Damage::AddInt {
+                        off,
+                        width: *rng.pick(&[1u8, 2, 4, 4, 8]),
+                        delta: *rng.pick(&[1u64, 1, 2, 7, 255, 256, 65536]),
+                        le: rng.chance(1, 3),
+                    },
                     0..=4 => Damage::Flip {
                         off,
                         bit: rng.below(8) as u8,
